@@ -40,14 +40,22 @@ mod ops_int;
 #[cfg(all(cfg_worker, feature = "serde"))]
 #[path = "../ops_serde.rs"]
 mod ops_serde;
+// (round 6: ops_text.rs names bases near the top of the 64-bit `Word` range as const generics; with 32-bit words those literals are
+// out of range - lint allowed, the wrapped instantiations are never selected: `grouped` refuses a base above `Word::MAX`)
 #[cfg(cfg_worker)]
+#[allow(overflowing_literals)]
 #[path = "../ops_text.rs"]
 mod ops_text;
 // ops modules the other groups gained in rounds 4/5 (same chains as `exec_<group>`)
 #[cfg(cfg_worker)]
 #[path = "../ops_int_prim.rs"]
 mod ops_int_prim;
-// (ops_norm.rs of the bits group is written for 64-bit words only — `Word` literals — and is not replayed)
+// ops_norm.rs of the bits group (C05: `c.ext`, `f.norm`) names bases above 2^32 as `Word` const generics.  With 32-bit words those
+// literals are out of range (lint `overflowing_literals`, allowed here: the wrapped instantiations are never selected, see `grouped`)
+#[cfg(cfg_worker)]
+#[allow(overflowing_literals)]
+#[path = "../ops_norm.rs"]
+mod ops_norm;
 #[cfg(cfg_worker)]
 #[path = "../ops_simplify2.rs"]
 mod ops_simplify2;
@@ -129,8 +137,35 @@ fn grouped(op: &str, args: &[&str]) -> Option<verif_harness::util::Res> {
     let chain: &[verif_harness::Dispatch] = match group {
         "int" => &[ops_int::dispatch, ops_bits::dispatch, ops_int_prim::dispatch],
         "div" => &[ops_div::dispatch, ops_int::dispatch],
-        "bits" => &[ops_bits::dispatch, ops_cmp::dispatch],
-        "text" => &[ops_text::dispatch, ops_text::dispatch_float],
+        "bits" => {
+            // `f.norm d:<B> …`: the base is a `Word` const generic; a base that is not a `Word` of this build does not exist here
+            if inner == "f.norm" {
+                if let Some(b) = args.first().and_then(|a| a.strip_prefix("d:")).and_then(|a| a.parse::<u128>().ok()) {
+                    if b > dashu_int::Word::MAX as u128 {
+                        return Some(Err(format!("bad-arg base-exceeds-word {}", b)));
+                    }
+                }
+            }
+            &[ops_bits::dispatch, ops_cmp::dispatch, ops_norm::dispatch]
+        }
+        "text" => {
+            // a base that is not a `Word` of this build: the base field of an `f:<B>:…` float argument, or the target base (first
+            // argument) of `f.with_base…` (any other `d:` argument is a precision / width and may be any usize)
+            let mut bases: Vec<u128> = args
+                .iter()
+                .filter_map(|a| a.strip_prefix("f:"))
+                .filter_map(|f| f.split(':').next().and_then(|x| x.parse::<u128>().ok()))
+                .collect();
+            if inner.starts_with("f.with_base") {
+                if let Some(b) = args.first().and_then(|a| a.strip_prefix("d:")).and_then(|d| d.parse::<u128>().ok()) {
+                    bases.push(b);
+                }
+            }
+            if let Some(b) = bases.into_iter().find(|b| *b > dashu_int::Word::MAX as u128) {
+                return Some(Err(format!("bad-arg base-exceeds-word {}", b)));
+            }
+            &[ops_text::dispatch, ops_text::dispatch_float]
+        }
         "conv" => &[ops_conv::dispatch],
         "nt" => &[ops_nt::dispatch],
         "float" => &[ops_float::dispatch],
